@@ -24,8 +24,9 @@ import (
 //     absolute path started in the private tree of a submodule, which leads to its owner's tree)
 //     can only be answered through the Modules value: the result must be the entry reached by
 //     walking the steps of the target from the root of that module's CURRENT tree
-//     (yang.ToEntry(module) at the time of the call; nil when that tree has no such node) — or the
-//     node of that module's kept tree, should the implementation still know it;
+//     (yang.ToEntry(module), read right after the call so that the oracle does not fill the cache
+//     on the lookup's behalf; nil when that tree has no such node) — or the node of that module's
+//     kept tree, should the implementation still know it;
 //   - no such lookup changes the kept trees (node and error counts).
 //
 // The own-tree lookups are also sent to the model (whose forest is the kept forest: it has no
@@ -94,35 +95,31 @@ func firstPrefix(path string) string {
 	return ""
 }
 
-// walkSteps walks encoded steps down from root. absentIO: the walk met an rpc/action whose
-// input/output is not there (a lookup would create it: the caller leaves such a path alone).
-func walkSteps(root *yang.Entry, steps []string) (e *yang.Entry, absentIO bool) {
-	e = root
+// walkSteps walks encoded steps down from root (nil when a step is not there).
+func walkSteps(root *yang.Entry, steps []string) *yang.Entry {
+	e := root
 	for _, s := range steps {
 		if e == nil {
-			return nil, false
+			return nil
 		}
 		switch s {
 		case "i", "o":
 			if e.RPC == nil {
-				return nil, false
+				return nil
 			}
 			if s == "i" {
 				e = e.RPC.Input
 			} else {
 				e = e.RPC.Output
 			}
-			if e == nil {
-				return nil, true
-			}
 		default:
 			if e.RPC != nil {
-				return nil, false
+				return nil
 			}
 			e = e.Dir[unhex(s[1:])]
 		}
 	}
-	return e, false
+	return e
 }
 
 func locOf(ref string, steps []string, e *yang.Entry) string {
